@@ -12,7 +12,10 @@
      - an argument that names the container itself or one of its own elements is evaluated
        to a VALUE before the operation starts ("as if the argument had been copied first").
    The number of live element instances after every operation is a function of the abstract
-   state (no temporaries survive an operation, nothing leaks): `slive`.  *)
+   state (no temporaries survive an operation, nothing leaks).  WHICH function depends on two
+   facts about the implementation (how many instances the embedded end item holds, how many
+   fields an item has); it is therefore defined next to the model (`slive`, LifeModel.v), not
+   here.  *)
 From Coq Require Import ZArith List Bool Arith.
 Import ListNotations.
 
@@ -29,8 +32,6 @@ Definition kind_eqb (a b : kind) : bool :=
 Definition has_key (k : kind) : bool :=
   match k with KMap | KMultiMap | KHashMap | KHashSet | KPoolMap => true | _ => false end.
 Definition has_val (k : kind) : bool := match k with KHashSet => false | _ => true end.
-(* PoolMap::Item declares `V value; const T key;` - every other item declares the key first *)
-Definition key_first (k : kind) : bool := match k with KPoolMap => false | _ => true end.
 (* insert of a present key does not create an item *)
 Definition unique (k : kind) : bool :=
   match k with KMap | KHashMap | KHashSet | KPoolMap => true | _ => false end.
@@ -43,9 +44,6 @@ Definition has_table (k : kind) : bool :=
 Definition copyable (k : kind) : bool := match k with KPoolList | KPoolMap => false | _ => true end.
 (* PoolMap::append(key) default-constructs the value *)
 Definition val_default (k : kind) : bool := match k with KPoolMap => true | _ => false end.
-(* number of element instances inside the embedded end item (`Item endItem`) *)
-Definition sent_count (k : kind) : nat :=
-  match k with KArray | KPoolList => 0 | KList | KHashSet => 1 | _ => 2 end.
 Definition is_array (k : kind) : bool := match k with KArray => true | _ => false end.
 (* Array::append(Array), List::insert(pos, List), Map::insert(Map), HashSet::append(HashSet) *)
 Definition can_addall (k : kind) : bool :=
@@ -56,7 +54,6 @@ Definition can_remkey (k : kind) : bool :=
   match k with KArray | KPoolList => false | _ => true end.
 (* Map and MultiMap have no swap *)
 Definition can_swap (k : kind) : bool := match k with KMap | KMultiMap => false | _ => true end.
-Definition fields (k : kind) : nat := (if has_key k then 1 else 0) + (if has_val k then 1 else 0).
 
 (* ---------------------------------------------------------------------------------------- *)
 (* operations                                                                                 *)
@@ -65,6 +62,9 @@ Definition fields (k : kind) : nat := (if has_key k then 1 else 0) + (if has_val
    element i of variable y (usually the container the operation is applied to). *)
 Inductive arg := AVal (z : Z) | AKey (y i : nat) | AValOf (y i : nat).
 Inductive pos := PFront | PBack | PAt (i : nat).
+(* the other entry points that remove one element: Array::remove(const Iterator&),
+   removeFront(), removeBack() (all eight containers) *)
+Inductive rvia := VIter | VFront | VBack.
 
 Inductive op :=
 | ONew (x : nat) (k : kind)        (* default-construct a container in the dead variable x *)
@@ -84,7 +84,13 @@ Inductive op :=
                                       Map::insert(Map) / HashSet::append(HashSet); y may be x *)
 | ORemAll (x y : nat)              (* HashSet::remove(HashSet); y may be x *)
 | OReserve (x n : nat)             (* Array::reserve *)
-| OResize (x n : nat) (va : arg).  (* Array::resize(n, value) *)
+| OResize (x n : nat) (va : arg)   (* Array::resize(n, value) *)
+| OAppendRange (x y i n : nat)     (* Array::append(const T* values, usize n) with values = &y[i],
+                                      i + n <= size of y; y may be x: a pointer into the array's own
+                                      storage *)
+| ORemVia (v : rvia) (x i : nat).  (* VIter: Array::remove(const Iterator&) at index i (for the node
+                                      containers ORemAt already is remove(iterator));
+                                      VFront / VBack: removeFront() / removeBack(), non-empty x *)
 
 (* ---------------------------------------------------------------------------------------- *)
 (* pure list helpers (shared with the model)                                                  *)
@@ -203,6 +209,15 @@ Definition sarg_val (s : sstate) (a : arg) : option Z :=
 Definition need_key (k : kind) : bool := has_key k.
 Definition need_val (k : kind) : bool := has_val k && negb (val_default k).
 
+(* the index an element-removing entry point removes, when the kind offers it and the call is
+   defined (removeFront / removeBack of an empty container are not) *)
+Definition via_idx (v : rvia) (k : kind) (len i : nat) : option nat :=
+  match v with
+  | VIter => if is_array k then Some i else None
+  | VFront => if 0 <? len then Some 0 else None
+  | VBack => if 0 <? len then Some (len - 1) else None
+  end.
+
 Definition spec_resize (l : acont) (n : nat) (vz : Z) : acont :=
   firstn n l ++ repeat (None, Some vz) (n - length l).
 
@@ -285,15 +300,27 @@ Definition spec_step (s : sstate) (o : op) : bool * sstate :=
           end
       | _ => (false, s)
       end
+  | OAppendRange x y i n =>
+      match sget s x, sget s y with
+      | Some (k, l), Some (k', l') =>
+          if is_array k && is_array k' && (i + n <=? length l')
+          then (true, sset s x (Some (k, l ++ firstn n (skipn i l'))))
+          else (false, s)
+      | _, _ => (false, s)
+      end
+  | ORemVia v x i =>
+      match sget s x with
+      | Some (k, l) =>
+          match via_idx v k (length l) i with
+          | Some j => if j <? length l then (true, sset s x (Some (k, remove_at j l))) else (false, s)
+          | None => (false, s)
+          end
+      | None => (false, s)
+      end
   end.
 
 Fixpoint spec_run (s : sstate) (ops : list op) : sstate :=
   match ops with [] => s | o :: r => spec_run (snd (spec_step s o)) r end.
-
-(* element instances alive when no operation is in progress: stored ones and end items *)
-Definition slive_var (v : avar) : nat :=
-  match v with Some (k, l) => sent_count k + fields k * length l | None => 0 end.
-Definition slive (s : sstate) : nat := fold_right (fun v n => slive_var v + n) 0 s.
 
 Definition sinit (nv : nat) : sstate := repeat None nv.
 
@@ -304,7 +331,8 @@ Definition sinit (nv : nat) : sstate := repeat None nv.
 Definition writes (o : op) : list nat :=
   match o with
   | ONew x _ | ODel x | OCopyNew x _ | OAssign x _ | OClear x | OIns x _ _ _ | ORemAt x _
-  | ORemKey x _ | OAddAll x _ _ | ORemAll x _ | OReserve x _ | OResize x _ _ => [x]
+  | ORemKey x _ | OAddAll x _ _ | ORemAll x _ | OReserve x _ | OResize x _ _
+  | OAppendRange x _ _ _ | ORemVia _ x _ => [x]
   | OSwap x y => [x; y]
   end.
 
@@ -313,8 +341,8 @@ Definition arg_vars (a : arg) : list nat :=
 (* every variable an operation names *)
 Definition mentions (o : op) : list nat :=
   match o with
-  | ONew x _ | ODel x | OClear x | ORemAt x _ | OReserve x _ => [x]
-  | OCopyNew x y | OAssign x y | OSwap x y | ORemAll x y | OAddAll x _ y => [x; y]
+  | ONew x _ | ODel x | OClear x | ORemAt x _ | OReserve x _ | ORemVia _ x _ => [x]
+  | OCopyNew x y | OAssign x y | OSwap x y | ORemAll x y | OAddAll x _ y | OAppendRange x y _ _ => [x; y]
   | OIns x _ ka va => x :: arg_vars ka ++ arg_vars va
   | ORemKey x ka => x :: arg_vars ka
   | OResize x _ va => x :: arg_vars va
@@ -345,6 +373,7 @@ Definition dealias (s : sstate) (t : nat) (o : op) : list op :=
   | OAssign x y => if Nat.eqb x y then [OCopyNew t y; OAssign x t; ODel t] else [o]
   | OAddAll x p y => if Nat.eqb x y then [OCopyNew t y; OAddAll x p t; ODel t] else [o]
   | ORemAll x y => if Nat.eqb x y then [OCopyNew t y; ORemAll x t; ODel t] else [o]
+  | OAppendRange x y i n => if Nat.eqb x y then [OCopyNew t y; OAppendRange x t i n; ODel t] else [o]
   | _ => [o]
   end.
 
@@ -356,11 +385,13 @@ Fixpoint dealias_run (s : sstate) (t : nat) (ops : list op) : list op :=
   end.
 
 (* an example history for the non-vacuity Examples of Properties_C04.v: 
-   self-assignment, append(a[0]) at the growth boundary, resize(n, a[1]), List::append(self),
+   self-assignment, append(a[0]) at the growth boundary, resize(n, a[1]), append(&a[1], 16) beyond
+   the capacity, remove(iterator) / removeFront / removeBack, List::append(self),
    a MultiMap copy, Map::insert(self), HashSet::remove(self) *)
 Definition example_history : list op :=
   [ONew 0 KArray; OIns 0 PBack (AVal 0) (AVal 5); OIns 0 PBack (AVal 0) (AVal 6); OIns 0 PBack (AVal 0) (AVal 7);
    OIns 0 PBack (AVal 0) (AValOf 0 0); OResize 0 9 (AValOf 0 1); OAssign 0 0; OAddAll 0 PBack 0; ORemAt 0 2;
+   OAppendRange 0 0 1 16; ORemVia VIter 0 3; ORemVia VFront 0 0; ORemVia VBack 0 0;
    OCopyNew 1 0; ODel 0; ODel 1;
    ONew 0 KList; OIns 0 PBack (AVal 0) (AVal 1); OIns 0 PFront (AVal 0) (AValOf 0 0); OAddAll 0 PBack 0;
    OAddAll 0 PFront 0; OAssign 0 0; ODel 0;
